@@ -101,6 +101,7 @@ def main(ctx, replay=None):
     ctx.assumptions += ["finiteness is a floating-point fact observed on the results; the specification enumerates where to look",
                         "positive definiteness by numpy eigvalsh"]
     wd = Workdir()
+    tdclasses = sorted({(float(c["tmin"]), float(c["dt"])) for c in allc})
     try:
         for n, c in enumerate(uniq):
             tmin, dt = float(c["tmin"]), float(c["dt"])
@@ -132,6 +133,22 @@ def main(ctx, replay=None):
             check_results(ctx, calc, case, sig)
             if n < 2:
                 ctx.sample(case)
+            if n % 6 == 0:
+                # the next calculation of the same process: the SAME files and array shapes, another temperature grid out of the
+                # enumerated (T_MIN, DT) classes - one that starts above absolute zero after one that started at it, and the reverse
+                alt = [x for x in tdclasses if (x[0] == 0.0) != (tmin == 0.0)] or [x for x in tdclasses if x != (tmin, dt)]
+                if alt:
+                    t2, d2 = alt[int(rng.integers(0, len(alt)))]
+                    ds.settings.update({"T_MIN": t2, "DT": d2})
+                    case2 = dict(case, tmin=t2, dt=d2, follows_same_shape=True)
+                    ctx.count(case2)
+                    try:
+                        calc2 = run(ds.write(wd.sub(f"c{n}b")))
+                    except Exception as ex:
+                        ctx.violation(f"calculation does not complete for the valid configuration {case2} (run after {case['tmin']}/{case['dt']} on the same files): {ex!r}",
+                                      {**case2, "exc": repr(ex)}, {**sig, "clause": "completes", "exc": type(ex).__name__})
+                        continue
+                    check_results(ctx, calc2, case2, sig)
     finally:
         wd.close()
 
